@@ -53,6 +53,50 @@ Proof.
       subst a. destruct (String.eqb_spec n m); [congruence|reflexivity].
 Qed.
 
+Lemma ac_find_record_many req : forall fs n, NoDup (map fst req) ->
+  ac_find (ac_record_many fs req) n =
+    match ac_assoc req n with Some r => Some (AcRec r) | None => ac_find fs n end.
+Proof.
+  unfold ac_record_many. induction req as [|[a ra] t IH]; intros fs n Hn; cbn [fold_left ac_assoc fst snd]; [reflexivity|].
+  cbn [map fst] in Hn. inversion Hn as [|? ? Hni Hn']; subst. rewrite IH by assumption.
+  destruct (String.eqb_spec a n) as [E|E].
+  - subst a. assert (Hnone : ac_assoc t n = None).
+    { clear - Hni. induction t as [|[b rb] t IH]; [reflexivity|]. cbn [ac_assoc]. cbn [map fst In] in Hni.
+      destruct (String.eqb_spec b n); [exfalso; apply Hni; left; assumption|]. apply IH. intros H. apply Hni. right. assumption. }
+    rewrite Hnone. cbn [ac_find]. rewrite String.eqb_refl. reflexivity.
+  - destruct (ac_assoc t n); [reflexivity|]. cbn [ac_find]. destruct (String.eqb_spec a n); [congruence|].
+    rewrite ac_find_remove. destruct (String.eqb_spec a n); [congruence|reflexivity].
+Qed.
+
+Lemma ac_assoc_none req n : existsb (fun p => String.eqb (fst p) n) req = false -> ac_assoc req n = None.
+Proof.
+  induction req as [|[a ra] t IH]; cbn [existsb ac_assoc fst]; [reflexivity|]. intros H. apply orb_false_iff in H.
+  destruct H as [H1 H2]. rewrite H1. apply IH. assumption.
+Qed.
+
+Lemma ac_assoc_in req n r : NoDup (map fst req) -> In (n, r) req -> ac_assoc req n = Some r.
+Proof.
+  induction req as [|[a ra] t IH]; intros Hn Hin; [destruct Hin|]. cbn [map fst] in Hn. inversion Hn as [|? ? Hni Hn']; subst.
+  cbn [ac_assoc]. destruct Hin as [E|Hin].
+  - inversion E; subst. rewrite String.eqb_refl. reflexivity.
+  - destruct (String.eqb_spec a n) as [E|E]; [|apply IH; assumption].
+    subst a. exfalso. apply Hni. apply in_map_iff. exists (n, r). split; [reflexivity|assumption].
+Qed.
+
+(* one add_hardfork transaction: every submitted name is recorded with its own submitted round *)
+Lemma ac_record_many_lookup s req n r :
+  ac_broken s = false -> NoDup (map fst req) -> In (n, r) req ->
+  ac_lookup_of (fst (ac_step s (AcRecordMany req))) n = AcFound r.
+Proof.
+  intros Hb Hn Hin. cbn [ac_step fst]. unfold ac_lookup_of. cbn [ac_broken ac_forks]. rewrite Hb.
+  rewrite ac_find_record_many by assumption. rewrite (ac_assoc_in req n r Hn Hin). reflexivity.
+Qed.
+
+Lemma ac_record_many_activation s req n r br :
+  ac_broken s = false -> NoDup (map fst req) -> In (n, r) req ->
+  ac_with_activation (ac_lookup_of (fst (ac_step s (AcRecordMany req))) n) br = if Z.ltb br r then AcBefore else AcAfter.
+Proof. intros Hb Hn Hin. rewrite (ac_record_many_lookup s req n r Hb Hn Hin). apply ac_found_branch. Qed.
+
 Lemma ac_run_fst s ops : fst (ac_run s ops) = fold_left (fun s o => fst (ac_step s o)) ops s.
 Proof.
   revert s. induction ops as [|o tl IH]; intros s; cbn [ac_run fold_left]; [reflexivity|].
@@ -60,11 +104,20 @@ Proof.
   cbn [fst]. rewrite <- IH, E2. reflexivity.
 Qed.
 
+Lemma ac_find_record_many_untouched req : forall fs n,
+  existsb (fun p => String.eqb (fst p) n) req = false -> ac_find (ac_record_many fs req) n = ac_find fs n.
+Proof.
+  unfold ac_record_many. induction req as [|[a ra] t IH]; intros fs n H; cbn [fold_left fst snd]; [reflexivity|].
+  cbn [existsb fst] in H. apply orb_false_iff in H. destruct H as [H1 H2]. rewrite IH by assumption.
+  cbn [ac_find]. rewrite H1, ac_find_remove, H1. reflexivity.
+Qed.
+
 Lemma ac_step_untouched s o name :
   ac_touches name o = false -> ac_lookup_of (fst (ac_step s o)) name = ac_lookup_of s name.
 Proof.
-  intros Ht. destruct o as [n r|n|n| |n br be ae|n]; cbn [ac_step fst ac_touches] in *; try discriminate; try reflexivity.
+  intros Ht. destruct o as [n r|req|n|n| |n br be ae|n]; cbn [ac_step fst ac_touches] in *; try discriminate; try reflexivity.
   - unfold ac_lookup_of. cbn [ac_forks ac_broken ac_find]. rewrite Ht, ac_find_remove, Ht. reflexivity.
+  - unfold ac_lookup_of. cbn [ac_forks ac_broken]. rewrite ac_find_record_many_untouched by assumption. reflexivity.
   - unfold ac_lookup_of. cbn [ac_forks ac_broken ac_find]. rewrite Ht, ac_find_remove, Ht. reflexivity.
   - unfold ac_lookup_of. cbn [ac_forks ac_broken]. rewrite ac_find_remove, Ht. reflexivity.
   - destruct (ac_round_by_name (ac_lookup_of s n)). reflexivity.
@@ -124,4 +177,20 @@ Proof.
   { unfold l, ac_exec. rewrite ac_run_fst, fold_left_app. cbn [fold_left]. unfold ac_lookup_of.
     rewrite ac_broken_stays; reflexivity. }
   rewrite Hl. apply ac_node_not_found.
+Qed.
+
+(* after any healthy history, one add_hardfork transaction with request map [req] (distinct names),
+   then ops that do not touch name n: n activates exactly at its own submitted round *)
+Lemma ac_behaviour_record_many ops1 ops2 req n r br :
+  ac_broken (ac_exec ops1) = false -> NoDup (map fst req) -> In (n, r) req ->
+  forallb (fun o => negb (ac_touches n o)) ops2 = true ->
+  ac_round_by_name (ac_lookup_of (ac_exec (ops1 ++ AcRecordMany req :: ops2)) n) = (r, AcOk) /\
+  ac_with_activation (ac_lookup_of (ac_exec (ops1 ++ AcRecordMany req :: ops2)) n) br
+    = if Z.ltb br r then AcBefore else AcAfter.
+Proof.
+  intros Hb Hn Hin H.
+  assert (Hl : ac_lookup_of (ac_exec (ops1 ++ AcRecordMany req :: ops2)) n = AcFound r).
+  { unfold ac_exec in *. rewrite ac_run_fst in *. rewrite fold_left_app. cbn [fold_left].
+    rewrite ac_fold_untouched by assumption. apply ac_record_many_lookup; assumption. }
+  rewrite Hl. split; [reflexivity|apply ac_found_branch].
 Qed.
